@@ -20,21 +20,13 @@ def main():
         if s.count(old) < 1:
             print("MUTATION DOES NOT APPLY"); return 2
         open(p, "w").write(s.replace(old, new, 1))
-        ev_backup = tempfile.mkdtemp(prefix="gl-ev-", dir="/var/tmp")
-        for i in ids:
-            f = f"/verif/evidence/{i}.json"
-            if os.path.exists(f): shutil.copy(f, ev_backup)
-        env = dict(os.environ, VERIF_REPO_ROOT=d)
+        env = dict(os.environ, VERIF_REPO_ROOT=d, VERIF_EVIDENCE_DIR=os.path.join(d, "ev"))
         rc_all = {}
         for i in ids:
             r = subprocess.run(["/verif/check", i, "--tier", tier], env=env, capture_output=True, text=True)
             rc_all[i] = r.returncode
             lines = [l for l in (r.stdout + r.stderr).splitlines() if l.startswith(("VIOLATION", "HARNESS", "[", "KNOWN", "  "))]
             print(f"== {i}: exit {r.returncode}"); print("\n".join(lines[:12]))
-        for i in ids:
-            b = os.path.join(ev_backup, f"{i}.json")
-            if os.path.exists(b): shutil.copy(b, f"/verif/evidence/{i}.json")
-        shutil.rmtree(ev_backup, ignore_errors=True)
         return 0
     finally:
         shutil.rmtree(d, ignore_errors=True)
